@@ -139,6 +139,17 @@ def c07_jobs(tier, seed):
     return j
 
 
+def c05_jobs(tier, seed):
+    q = tier == "quick"
+    s = 20 if q else 200
+    j = []
+    j += shards("dbg", "w_ports", "c05 --svc local --d1 300", 8 if q else 9, s, seed)
+    j += shards("dbg", "w_ports", "c05 --svc ipc --d1 300", 4, s, seed, first=20)
+    j += shards("rel", "w_ports", "c05 --svc local --d1 300", 2, s, seed, first=40)
+    j += shards("tsan", "w_ports", "c05 --svc local --d1 100 --d2 10 --rand 10", 2, s, seed, first=50)
+    return j
+
+
 PROPS = {
     "C09": {
         "level": "exploration",
@@ -230,5 +241,12 @@ PROPS = {
         "rule": "(a) the monitored process is held (alive, stopped by ptrace) before each system-call stop of node create + node drop while an observer process calls Node::list: the verdict must never be Dead; (b) the observer is held before each stop of its own Node::list while the live owner performs its complete node drop and is then released: the verdict must not be Dead; (c) 2-4 cleaner processes are released at once on a node whose process was killed: exactly one cleanup succeeds, the others get the documented refusals, nothing remains; (d) a cleaner is killed before each of its own stops, a second cleaner must then complete the cleanup. Quick samples every 2nd stop of (a) and (d). Non-trivial = a query/trial in which the node's files existed; distinct = distinct (sweep, stop index, system call, object kind).",
         "assumptions": ["file-lock based monitoring (ipc::Service) only; process-local monitoring has no crashes by definition", "a held process is stopped by ptrace, i.e. alive and not scheduled; kills are SIGKILL at system-call entry"],
         "floor": (60, 30),
+    },
+    "C05": {
+        "level": "exploration",
+        "jobs": c05_jobs,
+        "rule": "port level (Notifier/Listener over local and ipc services, ids 0-2, 1-3 notifier threads): short rounds in which every notifier fires a burst and parks while the listener mixes try_wait / timed_wait; after every round (all notifiers parked between calls) a quiescent probe runs whenever something is undelivered: timed_wait(1 s) must deliver and must not have slept >= 0.9 s. Every execution runs with the hook off, under each sampled depth-1 stall plan (stall before/after every hooked atomic operation of listener and notifiers, m in {1,2,4,10,all}), sampled depth-2 plans and random delays (debug, release, TSan). Log rules: no phantom id, deliveries <= started notifications on every prefix, every successful notification followed by a delivery of its id, quiescent wake-up probe. Non-trivial = an execution in which events were delivered or a probe ran; distinct = distinct (config, interleaving signature, delivered sequence).",
+        "assumptions": COMMON_ASSUMPTIONS + ["unbounded 'eventually' is restated as the quiescent probe: no notify in flight, undelivered id exists, wait must not sleep; the 0.9 s threshold is 5-6 orders of magnitude above the expected latency and a firing watchdog alone is never a verdict without the pending-id witness", "event implementations reached: process-local and unix-datagram/socket based ones selected by local/ipc services"],
+        "floor": (150, 50),
     },
 }
